@@ -42,7 +42,7 @@ Qed.
 
 Definition SO2_norm : NormCore (SO2 RS eps) (so2_cast RS) eps.
 Proof.
-  refine (mkNorm _ _ _ so2_inv t1 _ _ _ _ _ _ _ _ _); cbn [g_compose g_inverse g_exp g_log g_dof g_trandom g_assert_ok SO2].
+  refine (mkNorm _ _ _ so2_inv t1 _ _ _ _ _ _ _ (fun _ => True) _ _ _); cbn [g_compose g_inverse g_exp g_log g_dof g_trandom g_grandom g_assert_ok SO2].
   - intros X Y (ar & ai & -> & Ha) (br & bi & -> & Hb). unfold so2_compose, so2_real, so2_imag. mat_unfold.
     set (re := ar * br - ai * bi). set (im := ar * bi + ai * br).
     pose proof (renorm2_inv re im (ar * ar + ai * ai) (br * br + bi * bi) ltac:(unfold re, im; ring) Ha Hb) as H.
@@ -58,7 +58,9 @@ Proof.
     match goal with |- Rabs (cos ?a * cos ?a + sin ?a * sin ?a - 1) <= _ =>
       replace (cos a * cos a + sin a * sin a - 1) with ((sin a)² + (cos a)² - 1) by (unfold Rsqr; ring) end.
     rewrite sin2_cos2. apply unit_inv.
-  - intros u (a & ->). eexists; reflexivity.
+  - exact I.
+  - intros u (a & ->) _. unfold g_random. cbn [g_grandom SO2]. unfold so2_trandom, so2_exp, so2t_angle. mat_unfold. eexists _, _. split; [reflexivity|].
+    match goal with |- Rabs (cos ?a * cos ?a + sin ?a * sin ?a - 1) <= _ => replace (cos a * cos a + sin a * sin a - 1) with ((sin a)² + (cos a)² - 1) by (unfold Rsqr; ring) end. rewrite sin2_cos2. apply unit_inv.
   - intros X (r & i & -> & H). apply so2_accept; exact H.
 Defined.
 
@@ -67,7 +69,7 @@ Definition t3 (t : list R) : Prop := exists a b c, t = [a; b; c].
 
 Definition SE2_norm : NormCore (SE2 RS eps) (se2_cast RS) eps.
 Proof.
-  refine (mkNorm _ _ _ se2_inv t3 _ _ _ _ _ _ _ _ _); cbn [g_compose g_inverse g_exp g_log g_dof g_trandom g_assert_ok SE2].
+  refine (mkNorm _ _ _ se2_inv t3 _ _ _ _ _ _ _ (fun _ => True) _ _ _); cbn [g_compose g_inverse g_exp g_log g_dof g_trandom g_grandom g_assert_ok SE2].
   - intros X Y (ax & ay & ar & ai & -> & Ha) (bx & by_ & br & bi & -> & Hb). unfold se2_compose, se2_real, se2_imag, se2_x, se2_y. mat_unfold.
     set (re := ar * br - ai * bi). set (im := ar * bi + ai * br).
     pose proof (renorm2_inv re im (ar * ar + ai * ai) (br * br + bi * bi) ltac:(unfold re, im; ring) Ha Hb) as H.
@@ -84,7 +86,11 @@ Proof.
     match goal with |- Rabs (cos ?a * cos ?a + sin ?a * sin ?a - 1) <= _ =>
       replace (cos a * cos a + sin a * sin a - 1) with ((sin a)² + (cos a)² - 1) by (unfold Rsqr; ring) end.
     rewrite sin2_cos2. apply unit_inv.
-  - intros u (a & b & c & ->). unfold se2_trandom. mat_unfold. eexists _, _, _; reflexivity.
+  - exact I.
+  - intros u (a & b & c & ->) _. unfold g_random. cbn [g_grandom SE2]. unfold se2_trandom, se2_exp. mat_unfold.
+    match goal with |- context [se2_AB RS eps ?th ?cc ?ss] => destruct (se2_AB RS eps th cc ss) as [A B] end.
+    eexists _, _, _, _. split; [reflexivity|].
+    match goal with |- Rabs (cos ?a * cos ?a + sin ?a * sin ?a - 1) <= _ => replace (cos a * cos a + sin a * sin a - 1) with ((sin a)² + (cos a)² - 1) by (unfold Rsqr; ring) end. rewrite sin2_cos2. apply unit_inv.
   - intros X (x & y & r & i & -> & H). unfold se2_assert_ok. cbn [skipn]. apply so2_accept; exact H.
 Defined.
 
@@ -156,9 +162,24 @@ Qed.
 Lemma conj_inv x y z w : q_inv x y z w -> q_inv (- x) (- y) (- z) w.
 Proof. unfold q_inv, n4. intros H. replace (- x * - x + - y * - y + - z * - z + w * w - 1) with (x * x + y * y + z * z + w * w - 1) by ring. exact H. Qed.
 
+
+(* Eigen's UnitRandom (randQuat) is exactly unit-norm over the reals when its first draw is in [0, 1] *)
+Definition draw_q (k : nat) (u : list R) : Prop := 0 <= @vnth RS u k <= 1.
+Lemma rand_quat_inv u1 u2 u3 : 0 <= u1 <= 1 -> exists x y z w, rand_quat RS u1 u2 u3 = [x; y; z; w] /\ q_inv x y z w.
+Proof.
+  intros Hu. unfold rand_quat. cbn [K RS ksqrt ksin kcos kmul ksub]. unfold kz. cbn [klit RS].
+  eexists _, _, _, _. split; [reflexivity|]. unfold q_inv, n4.
+  assert (Ha : sqrt (1 - u1) * sqrt (1 - u1) = 1 - u1) by (apply sqrt_sqrt; lra).
+  assert (Hb : sqrt u1 * sqrt u1 = u1) by (apply sqrt_sqrt; lra).
+  set (a := sqrt (1 - u1)) in *. set (b := sqrt u1) in *.
+  replace (a * cos u2 * (a * cos u2) + b * sin u3 * (b * sin u3) + b * cos u3 * (b * cos u3) + a * sin u2 * (a * sin u2) - 1)
+    with ((a * a) * ((sin u2)² + (cos u2)²) + (b * b) * ((sin u3)² + (cos u3)²) - 1) by (unfold Rsqr; ring).
+  rewrite !sin2_cos2, Ha, Hb. replace ((1 - u1) * 1 + u1 * 1 - 1) with 0 by ring. rewrite Rabs_R0. lra.
+Qed.
+
 Definition SO3_norm : NormCore (SO3 RS eps) (so3_cast RS) eps.
 Proof.
-  refine (mkNorm _ _ _ so3_inv t3 _ _ _ _ _ _ _ _ _); cbn [g_compose g_inverse g_exp g_log g_dof g_trandom g_assert_ok SO3].
+  refine (mkNorm _ _ _ so3_inv t3 _ _ _ _ _ _ _ (draw_q 0) _ _ _); cbn [g_compose g_inverse g_exp g_log g_dof g_trandom g_grandom g_assert_ok SO3].
   - intros X Y (ax & ay & az & aw & -> & Ha) (bx & by_ & bz & bw & -> & Hb). apply so3_compose_inv; assumption.
   - intros X (x & y & z & w & -> & H). eexists _, _, _, _. split; [reflexivity|]. apply conj_inv; exact H.
   - intros t (a & b & c & ->). apply so3_exp_inv.
@@ -166,7 +187,8 @@ Proof.
   - intros t s (a & b & c & ->). eexists _, _, _; reflexivity.
   - eexists _, _, _; reflexivity.
   - intros X (x & y & z & w & -> & H). apply normalized_inv; exact H.
-  - intros u H; exact H.
+  - unfold draw_q, vnth, vzero. cbn. lra.
+  - intros u (a & b & c & ->) Hd. unfold g_random. cbn [g_grandom SO3]. unfold draw_q in Hd. cbn [vnth nth] in *. apply rand_quat_inv. exact Hd.
   - intros X (x & y & z & w & -> & H). apply so3_accept; exact H.
 Defined.
 
@@ -184,7 +206,7 @@ Proof. unfold quat_matrix. eexists _, _, _, _, _, _, _, _, _; reflexivity. Qed.
 
 Definition SE3_norm : NormCore (SE3 RS eps) (se3_cast RS) eps.
 Proof.
-  refine (mkNorm _ _ _ se3_inv t6 _ _ _ _ _ _ _ _ _); cbn [g_compose g_inverse g_exp g_log g_dof g_trandom g_assert_ok SE3].
+  refine (mkNorm _ _ _ se3_inv t6 _ _ _ _ _ _ _ (draw_q 3) _ _ _); cbn [g_compose g_inverse g_exp g_log g_dof g_trandom g_grandom g_assert_ok SE3].
   - intros X Y (atx & aty & atz & ax & ay & az & aw & -> & Ha) (btx & bty & btz & bx & by_ & bz & bw & -> & Hb).
     unfold se3_compose, se3_rotation, se3_q, se3_t, so3_rotation. cbn [vslice skipn firstn]. cbn [K RS].
     destruct (so3_compose_inv _ _ _ _ _ _ _ _ Ha Hb) as (x & y & z & w & -> & H).
@@ -206,7 +228,9 @@ Proof.
   - eexists _, _, _, _, _, _; reflexivity.
   - intros X (tx & ty & tz & x & y & z & w & -> & H). unfold se3_cast. cbn [vslice skipn firstn]. cbn [K RS].
     destruct (normalized_inv _ _ _ _ H) as (x' & y' & z' & w' & -> & H'). eexists _, _, _, _, _, _, _. split; [reflexivity|exact H'].
-  - intros u H; exact H.
+  - unfold draw_q, vnth, vzero. cbn. lra.
+  - intros u (a & b & c & d & e & f & ->) Hd. unfold g_random. cbn [g_grandom SE3]. unfold draw_q in Hd. cbn [vnth nth firstn] in *.
+    destruct (rand_quat_inv d e f Hd) as (x & y & z & w & -> & Hq). eexists _, _, _, x, y, z, w. split; [reflexivity|exact Hq].
   - intros X (tx & ty & tz & x & y & z & w & -> & H). unfold se3_assert_ok. cbn [skipn]. apply so3_accept; exact H.
 Defined.
 
@@ -217,7 +241,7 @@ Definition se23_inv (c : list R) : Prop :=
 
 Definition SE23_norm : NormCore (SE23 RS eps) (se23_cast RS) eps.
 Proof.
-  refine (mkNorm _ _ _ se23_inv t9 _ _ _ _ _ _ _ _ _); cbn [g_compose g_inverse g_exp g_log g_dof g_trandom g_assert_ok SE23].
+  refine (mkNorm _ _ _ se23_inv t9 _ _ _ _ _ _ _ (draw_q 3) _ _ _); cbn [g_compose g_inverse g_exp g_log g_dof g_trandom g_grandom g_assert_ok SE23].
   - intros X Y (atx & aty & atz & ax & ay & az & aw & avx & avy & avz & -> & Ha) (btx & bty & btz & bx & by_ & bz & bw & bvx & bvy & bvz & -> & Hb).
     unfold se23_compose, se23_rotation, se23_q, se23_t, se23_v, so3_rotation. cbn [vslice skipn firstn]. cbn [K RS].
     destruct (so3_compose_inv _ _ _ _ _ _ _ _ Ha Hb) as (x & y & z & w & -> & H).
@@ -240,7 +264,9 @@ Proof.
   - eexists _, _, _, _, _, _, _, _, _; reflexivity.
   - intros X (tx & ty & tz & x & y & z & w & vx & vy & vz & -> & H). unfold se23_cast. cbn [vslice skipn firstn]. cbn [K RS].
     destruct (normalized_inv _ _ _ _ H) as (x' & y' & z' & w' & -> & H'). eexists _, _, _, _, _, _, _, _, _, _. split; [reflexivity|exact H'].
-  - intros u H; exact H.
+  - unfold draw_q, vnth, vzero. cbn. lra.
+  - intros u (a & b & c & d & e & f & g & h & i & ->) Hd. unfold g_random. cbn [g_grandom SE23]. unfold draw_q in Hd. cbn [vnth nth firstn vslice skipn] in *.
+    destruct (rand_quat_inv d e f Hd) as (x & y & z & w & -> & Hq). eexists _, _, _, x, y, z, w, _, _, _. split; [reflexivity|exact Hq].
   - intros X (tx & ty & tz & x & y & z & w & vx & vy & vz & -> & H). unfold se23_assert_ok. cbn [vslice skipn firstn]. apply so3_accept; exact H.
 Defined.
 
@@ -253,7 +279,7 @@ Proof. unfold fillE, I33. mat_unfold. destruct (Rltb _ _); mat_unfold; eexists _
 
 Definition SGal3_norm : NormCore (SGal3 RS eps) (sg_cast RS) eps.
 Proof.
-  refine (mkNorm _ _ _ sg_inv t10 _ _ _ _ _ _ _ _ _); cbn [g_compose g_inverse g_exp g_log g_dof g_trandom g_assert_ok SGal3].
+  refine (mkNorm _ _ _ sg_inv t10 _ _ _ _ _ _ _ (draw_q 3) _ _ _); cbn [g_compose g_inverse g_exp g_log g_dof g_trandom g_grandom g_assert_ok SGal3].
   - intros X Y (apx & apy & apz & ax & ay & az & aw & avx & avy & avz & at_ & -> & Ha) (bpx & bpy & bpz & bx & by_ & bz & bw & bvx & bvy & bvz & bt & -> & Hb).
     unfold sg_compose, sg_rotation, sg_q, sg_p, sg_v, sg_t, so3_rotation. cbn [vslice skipn firstn]. cbn [K RS].
     destruct (so3_compose_inv _ _ _ _ _ _ _ _ Ha Hb) as (x & y & z & w & -> & H).
@@ -278,7 +304,9 @@ Proof.
   - eexists _, _, _, _, _, _, _, _, _, _; reflexivity.
   - intros X (px & py & pz & x & y & z & w & vx & vy & vz & t & -> & H). unfold sg_cast. cbn [vslice skipn firstn]. cbn [K RS].
     destruct (normalized_inv _ _ _ _ H) as (x' & y' & z' & w' & -> & H'). eexists _, _, _, _, _, _, _, _, _, _, _. split; [reflexivity|exact H'].
-  - intros u H; exact H.
+  - unfold draw_q, vnth, vzero. cbn. lra.
+  - intros u (a & b & c & d & e & f & g & h & i & j & ->) Hd. unfold g_random. cbn [g_grandom SGal3]. unfold draw_q in Hd. cbn [vnth nth firstn vslice skipn] in *.
+    destruct (rand_quat_inv d e f Hd) as (x & y & z & w & -> & Hq). eexists _, _, _, x, y, z, w, _, _, _, _. split; [reflexivity|exact Hq].
   - intros X (px & py & pz & x & y & z & w & vx & vy & vz & t & -> & H). unfold sg_assert_ok. cbn [vslice skipn firstn]. apply so3_accept; exact H.
 Defined.
 
@@ -290,7 +318,7 @@ Proof. unfold vadd. revert b n. induction a as [|x a IH]; intros [|y b] n Ha Hb;
 
 Definition Rn_norm (n : nat) (eps : R) : NormCore (Rn RS n) (fun c => c) eps.
 Proof.
-  refine (mkNorm _ _ _ (fun c => length c = n) (fun t => length t = n) _ _ _ _ _ _ _ _ _); cbn [g_compose g_inverse g_exp g_log g_dof g_trandom g_assert_ok Rn].
+  refine (mkNorm _ _ _ (fun c => length c = n) (fun t => length t = n) _ _ _ _ _ _ _ (fun _ => True) _ _ _); cbn [g_compose g_inverse g_exp g_log g_dof g_trandom g_grandom g_assert_ok Rn].
   - intros X Y HX HY. unfold rn_compose. apply vadd_length; assumption.
   - intros X HX. unfold rn_inverse, vneg. rewrite map_length. exact HX.
   - intros t H; exact H.
@@ -298,7 +326,8 @@ Proof.
   - intros t s H. unfold vscale_r. rewrite map_length. exact H.
   - unfold vzero. apply repeat_length.
   - intros X H; exact H.
-  - intros u H; exact H.
+  - exact I.
+  - intros u H _. unfold g_random. cbn [g_grandom Rn]. exact H.
   - reflexivity.
 Defined.
 
